@@ -19,10 +19,10 @@ def run(cmd, H):
     refs = []
     samples = []
 
-    def refute(what, **w):
+    def refute(what, mech=None, **w):
         C["refuted"] += 1
         if len(refs) < 40:
-            refs.append({"what": what, "witness": w})
+            refs.append({"what": what, "witness": w, "mech": mech})
 
     def pyname_kw(cls, name):
         import inspect
@@ -288,7 +288,9 @@ def run(cmd, H):
             except H.UnionBroken as e:
                 refute("union invariant broken during round trip of %s: %s" % (key, e), type=key)
             except Exception as e:
-                refute("round trip raised %s for %s: %s" % (type(e).__name__, key, str(e)[:200]), type=key, value=str(v)[:300])
+                sh = shadows(t) if isinstance(e, AttributeError) and "'NoneType' object has no attribute" in str(e) else []
+                refute("round trip raised %s for %s: %s" % (type(e).__name__, key, str(e)[:200]),
+                       mech="py-field-named-like-root-namespace-shadows-module" if sh else None, type=key, value=str(v)[:300], field_named_like_root_namespace=sh)
 
     def shadows(t, seen=None):
         """A field named like the root namespace of a type this definition refers to (or of itself) - in this definition or in one it
